@@ -14,6 +14,8 @@ E3 successor before visit   in the chain walker nothing is read or written throu
 E4 clear restores the initial state   every field cstl_hash_init sets to a constant holds that constant
         on every path out of cstl_hash_clear (exempt: bucket.cst, a relative flag); the bucket array
         is freed exactly once, before the pointer is cleared.
+E6 added buckets         (shared with C03.L5) resize empties and stamps exactly the buckets from the table's
+        current count (read after the forced rehash) up to the requested count.
 E5 stop value            in the walkers, after a visit returned non-zero no further visit happens and that
         value is what foreach returns.
 """
@@ -189,6 +191,18 @@ def run(m, rep, tier):
             e5.undecided(e, 'not in the inlined model')
             continue
         check_stop_value(m, f, e5, user_visit='$1')
+
+    # ---- E6 --------------------------------------------------------------------------
+    # (C03's L5 instance) an element can only be enumerated if the bucket it lives in is swept when the table
+    # shrinks: buckets added by a resize must be emptied and stamped from the *current* count on
+    e6 = rep.rule('E6', 'resize initialises exactly the buckets [current count, requested count) after the forced rehash and the flip', floor=1)
+    from . import c03
+    mod = m.plain.get('hash')
+    f = mod.fn('cstl_hash_resize') if mod is not None else None
+    if f is None or f.decl:
+        e6.undecided('cstl_hash_resize', 'not found')
+    else:
+        c03.check_resize_order(m, f, e6)
 
 
 def strip_ext(f, ref):
